@@ -39,10 +39,31 @@ def discover(prog):
         return any(isinstance(n, ast.Call) and
                    isinstance(n.func, ast.Attribute) and
                    n.func.attr == 'modelcheck' for n in ast.walk(f.node))
+    def reaches(f):
+        out, todo = [], list(callees(f))
+        while todo:
+            g = todo.pop()
+            if g in out:
+                continue
+            out.append(g)
+            todo.extend(callees(g))
+        return out
+
+    def recursive(f):           # directly or through helpers
+        return f in reaches(f)
     elims = []
-    for f in callees(entry):
-        if f in callees(f) and f not in elims:
-            elims.append(f)
+    seen, todo = [], [entry]
+    while todo:
+        g = todo.pop()
+        if g in seen:
+            continue
+        seen.append(g)
+        for f in callees(g):
+            if recursive(f):
+                if f not in elims:
+                    elims.append(f)
+            else:
+                todo.append(f)      # a helper between entry and eliminator
     if len(elims) != 1:
         raise Inconclusive('R-CTLS-1', 'eliminator not found (self-recursive '
                            'callees of the entry: %s)' % [
